@@ -2666,7 +2666,11 @@ func (s *Store) fsmSnapshot() (fSnap raft.FSMSnapshot, retErr error) {
 	}()
 
 	var fsmSnapshot raft.FSMSnapshot
-	finalizer := s.createSnapshotFingerprint
+
+	// Note the newest snapshot in the Snapshot store now, so that once this snapshot
+	// has been persisted and its sink closed, it can be confirmed that the snapshot
+	// really made it into the store before the database file is fingerprinted.
+	prevSnapIdx, prevSnapTerm, prevSnapOK := s.latestSnapshotIndexTerm()
 	if dueNext.IsFull() {
 		// We need to start the snapshoting process over again, starting with a full copy of the SQLite
 		// database. This happens when a node is snapshotting for the very first time, or in certain
@@ -2764,8 +2768,23 @@ func (s *Store) fsmSnapshot() (fSnap raft.FSMSnapshot, retErr error) {
 	fs := FSMSnapshot{
 		Type:        dueNext,
 		FSMSnapshot: fsmSnapshot,
-		Finalizer:   finalizer,
 		OnRelease: func(invoked, succeeded bool) {
+			if invoked && succeeded {
+				// Raft releases the snapshot only after it has closed the sink. Only
+				// if the snapshot is now in the Snapshot store does the database file
+				// match the store, and only then is it safe to mark the file as usable
+				// for a fast restart. Doing this any earlier (e.g. before the sink is
+				// closed) means a crash or a failed close would leave a valid fingerprint
+				// for a database which is ahead of the newest snapshot, and the log
+				// entries after that snapshot would be applied a second time on restart.
+				idx, term, ok := s.latestSnapshotIndexTerm()
+				if ok && prevSnapOK && (idx != prevSnapIdx || term != prevSnapTerm) {
+					if err := s.createSnapshotFingerprint(); err != nil {
+						s.logger.Printf("failed to create snapshot fingerprint: %s", err)
+					}
+				}
+				return
+			}
 			if !invoked {
 				s.logger.Printf("persisting %s snapshot was not invoked on node ID %s", dueNext, s.raftID)
 				// The WAL staging directory, if it has anything, will not have changed, so the WAL files
@@ -3094,6 +3113,20 @@ func (s *Store) selfLeaderChange(leader bool) {
 			s.logger.Printf("node auto-restored successfully from %s", s.restorePath)
 		}
 	}
+}
+
+// latestSnapshotIndexTerm returns the index and term of the newest snapshot in
+// the Snapshot store (zero values if the store is empty). The final return value
+// is false if the store could not be listed.
+func (s *Store) latestSnapshotIndexTerm() (uint64, uint64, bool) {
+	metas, err := s.snapshotStore.List()
+	if err != nil {
+		return 0, 0, false
+	}
+	if len(metas) == 0 {
+		return 0, 0, true
+	}
+	return metas[0].Index, metas[0].Term, true
 }
 
 func (s *Store) createSnapshotFingerprint() error {
